@@ -135,8 +135,15 @@ func renderMethod(w *writer, mp *mplan, sty style) {
 
 // SelfCheck verifies the generator's own invariants (a failure makes the case inconclusive, never a verdict).
 func SelfCheck(t *Tree) error {
-	names := map[string]bool{}
+	paths := map[string]bool{}
 	for _, f := range t.Files {
+		// method names are unique per class (two classes of the same simple name in different packages may both have
+		// a helper of one name); paths are unique per tree
+		names := map[string]bool{}
+		if paths[f.RelPath] {
+			return fmt.Errorf("path %s used twice", f.RelPath)
+		}
+		paths[f.RelPath] = true
 		lines := strings.Split(f.Text, "\n")
 		at := func(n int) string {
 			if n < 1 || n > len(lines) {
